@@ -391,6 +391,51 @@ func (x *W) allEntities() []ecs.Entity {
 	return es
 }
 
+// digest: every observable of the world (entities, component sets, values, targets,
+// resources, lock state, registry size), taken through the public API; used around calls
+// that are expected to fail (C10: a failed single-entity call changes nothing).
+func (x *W) digest() (s string) {
+	defer func() {
+		if r := recover(); r != nil {
+			s = "unavailable"
+		}
+	}()
+	var sb strings.Builder
+	st := x.w.Stats()
+	fmt.Fprintf(&sb, "used=%d locked=%v comps=%d cached=%d;", st.Entities.Used, x.w.IsLocked(), len(ecs.ComponentIDs(x.w)), st.CachedFilters)
+	saved := x.chk
+	var rows []string
+	for _, e := range x.allEntities() {
+		rows = append(rows, fmt.Sprintf("%v:%s", e, x.view(e)))
+	}
+	x.chk = saved
+	sort.Strings(rows)
+	sb.WriteString(strings.Join(rows, ";"))
+	for i, id := range ecs.ResourceIDs(x.w) {
+		fmt.Fprintf(&sb, ";r%d=%v/%p", i, x.w.Resources().Has(id), x.w.Resources().Get(id))
+	}
+	return sb.String()
+}
+
+// aliveDigest: the Alive answer for every handle this world has ever issued or loaded.
+func (x *W) aliveDigest() (s string) {
+	defer func() {
+		if r := recover(); r != nil {
+			s = "|alive-unavailable"
+		}
+	}()
+	b := make([]byte, 0, len(x.slots)+1)
+	b = append(b, '|')
+	for _, e := range x.slots {
+		if x.w.Alive(e) {
+			b = append(b, '1')
+		} else {
+			b = append(b, '0')
+		}
+	}
+	return string(b)
+}
+
 func (x *W) installListener(subs int, comps string) {
 	cb := x.callback(0, subs, comps)
 	x.cb = &cb
